@@ -679,6 +679,50 @@ pub enum Handles {
     Probe { pings: Vec<Ping>, fail: Rc<RefCell<Option<FailStep>>> },
     /// per child: a ping handle or the raw eventfd
     Comp { pokes: Vec<(Option<Ping>, Option<OwnedRaw>)> },
+    Exec { sched: Vec<calloop::futures::Scheduler<u32>> },
+}
+
+/// Scripted future of the history machine: stays Pending `pendings` times (optionally waking itself), then
+/// completes with its task id. Every poll and its drop are recorded.
+pub struct HistFut {
+    task: usize,
+    pendings: u8,
+    self_wake: bool,
+    sh: Sh,
+    waker: Rc<RefCell<Option<std::task::Waker>>>,
+}
+
+impl std::future::Future for HistFut {
+    type Output = u32;
+    fn poll(mut self: std::pin::Pin<&mut Self>, cx: &mut std::task::Context<'_>) -> std::task::Poll<u32> {
+        let ok = std::thread::current().id() == self.sh.thread;
+        self.sh.push(Ev::Poll { task: self.task, thread_ok: ok });
+        *self.waker.borrow_mut() = Some(cx.waker().clone());
+        if self.pendings > 0 {
+            self.pendings -= 1;
+            if self.self_wake {
+                cx.waker().wake_by_ref();
+            }
+            self.sh.push(Ev::PollEnd { task: self.task, ready: false });
+            std::task::Poll::Pending
+        } else {
+            self.sh.push(Ev::PollEnd { task: self.task, ready: true });
+            std::task::Poll::Ready(self.task as u32)
+        }
+    }
+}
+
+impl Drop for HistFut {
+    fn drop(&mut self) {
+        let ok = std::thread::current().id() == self.sh.thread;
+        self.sh.push(Ev::FutDrop { task: self.task, thread_ok: ok });
+    }
+}
+
+pub struct WTask {
+    pub src: SrcId,
+    pub val: u8,
+    pub waker: Rc<RefCell<Option<std::task::Waker>>>,
 }
 
 pub struct WSrc {
@@ -740,6 +784,7 @@ pub struct Ctx {
     pub signal: Option<calloop::LoopSignal>,
     pub callbacks: u32,
     pub exhausted: bool,
+    pub tasks: Vec<WTask>,
 }
 
 /// callbacks per case after which the case is abandoned (generated histories stay far below)
@@ -1119,7 +1164,21 @@ impl Ctx {
                 }
             }
             Kind::Exec => {
-                // executor sources are driven by the sched engine (C10); not part of this machine yet
+                let id = self.new_src(kind, script, K_EXEC);
+                let (exec, sched) = calloop::futures::executor::<u32>().expect("executor");
+                sh.push(Ev::Created { src: id, info: KInfo { kind: kind.clone(), fd: -1, deadline_ns: None, recycled_from: None, children: vec![] } });
+                let alive = self.srcs[id].alive.clone();
+                let t = Tracked::new(exec, id, &sh, &alive);
+                let g = CbGuard { id, sh: sh.clone() };
+                self.srcs[id].h = Handles::Exec { sched: vec![sched] };
+                let r = self.insert_any(id, t, move |task: u32, _: &mut (), ctx: &mut Ctx| {
+                    let _ = &g;
+                    let val = ctx.tasks.get(task as usize).map_or(0, |t| t.val);
+                    ctx.on_cb(id, Payload::Out { task: task as usize, val });
+                }, via_disp);
+                if let Some(d) = self.record_insert(id, via_disp, via_disp, r) {
+                    self.srcs[id].kept = Some(Box::new(d));
+                }
             }
             Kind::Probe { subs, lifecycle, synthetic, fail_reg } => {
                 let id = self.new_src(kind, script, K_PROBE);
@@ -1476,7 +1535,48 @@ impl Ctx {
                     self.finish_res(r);
                 }
             }
-            Op::Schedule { .. } | Op::Wake { .. } | Op::DropScheduler { .. } => {}
+            Op::Schedule { src, plan } => {
+                if self.tasks.len() >= 64 {
+                    return;
+                }
+                let Some(i) = pick(*src, self.by_kind[K_EXEC].len()) else { return };
+                let id = self.by_kind[K_EXEC][i];
+                let Handles::Exec { sched } = &self.srcs[id].h else { return };
+                let Some(sc) = sched.last().cloned() else { return };
+                let task = self.tasks.len();
+                let waker = Rc::new(RefCell::new(None));
+                self.tasks.push(WTask { src: id, val: plan.val, waker: waker.clone() });
+                let pendings = plan.pendings.min(3);
+                sh.push(Ev::Op(ROp::Schedule { src: id, task, pendings, self_wake: plan.self_wake, val: plan.val }));
+                let fut = HistFut { task, pendings, self_wake: plan.self_wake, sh: sh.clone(), waker };
+                match catch_unwind(AssertUnwindSafe(move || sc.schedule(fut))) {
+                    Ok(Ok(())) => sh.push(Ev::OpRes(Res::Ok)),
+                    Ok(Err(_)) => sh.push(Ev::OpRes(Res::OtherErr("ExecutorDestroyed".into()))),
+                    Err(p) => {
+                        self.poisoned = true;
+                        sh.push(Ev::OpRes(panic_res(p)));
+                    }
+                }
+            }
+            Op::Wake { task } => {
+                let Some(i) = pick(*task, self.tasks.len()) else { return };
+                let w = self.tasks[i].waker.borrow().clone();
+                let Some(w) = w else { return };
+                sh.push(Ev::Op(ROp::Wake { task: i }));
+                let r = catch_unwind(AssertUnwindSafe(move || w.wake()));
+                self.finish_unit(r);
+            }
+            Op::DropScheduler { src } => {
+                let Some(i) = pick(*src, self.by_kind[K_EXEC].len()) else { return };
+                let id = self.by_kind[K_EXEC][i];
+                if let Handles::Exec { sched } = &mut self.srcs[id].h {
+                    if let Some(s) = sched.pop() {
+                        sh.push(Ev::Op(ROp::DropScheduler { src: id }));
+                        drop(s);
+                        sh.push(Ev::OpRes(Res::Ok));
+                    }
+                }
+            }
             Op::InsertIdle { prog } => {
                 if self.idles.len() >= 24 {
                     return;
@@ -1789,6 +1889,7 @@ pub fn run_history(case: &HistCase, opts: Opts) -> Vec<Ev> {
         signal: Some(el.get_signal()),
         callbacks: 0,
         exhausted: false,
+        tasks: Vec::new(),
     };
     // the two fds the polling crate registers for itself show up first
     ctx.snapshot(true);
@@ -1864,6 +1965,7 @@ pub fn run_history(case: &HistCase, opts: Opts) -> Vec<Ev> {
                     Handles::Gen { peer, .. } => {
                         peer.take();
                     }
+                    Handles::Exec { sched } => sched.clear(),
                     _ => {}
                 }
             }
